@@ -245,6 +245,17 @@ fn placeholder_cases() -> &'static Vec<Case> {
                 if !ph.is_finite() {
                     continue;
                 }
+                // the placeholder as a bare argument next to literals (argument lists read straight from the tree):
+                // integer-valued placeholders, judged like any other list
+                if let Val::I(p) = ph {
+                    for f in funcs(ev) {
+                        for (form, ks) in [("F(@,6)", vec![p, 6]), ("F(6,@)", vec![6, p]), ("F(@,@,4)", vec![p, p, 4]), ("F(9,@,-6)", vec![9, p, -6]), ("F(@,-4)", vec![p, -4])] {
+                            let mut c = Case::new(ev, form.replace('F', f), ph.clone());
+                            c.aux = vec![f.to_string(), ks.iter().map(|k| k.to_string()).collect::<Vec<_>>().join(" ")];
+                            out.push(c);
+                        }
+                    }
+                }
                 for f in ["min", "max", "med", "median", "avg"] {
                     for form in ["F(@)", "F(@,@,@)", "F((@))"] {
                         if f == "avg" && form != "F(@)" {
@@ -254,6 +265,22 @@ fn placeholder_cases() -> &'static Vec<Case> {
                         c.aux = vec![f.to_string(), String::new(), "placeholder".into()];
                         out.push(c);
                     }
+                }
+            }
+        }
+        // lists of one repeated value that uses every digit a Decimal has: min, max, the median and the mean of n copies
+        // of a are a. Only values whose double is itself representable (a+a and (a+a)/2 exact): beyond that the sum is rounded
+        // by rust_decimal and C11 does not promise more than C07 does (med(7.0000000000000000000000000001, same) is 1e-28 off)
+        for a in ["0.3333333333333333333333333333", "0.0000000000000000000000000001", "20000000000000000000000000001", "20000000000000000000000000005", "39614081257132168796771975167", "0.0000000000000000000000000003", "1.0000000000000000000000000005"] {
+            for f in ["min", "max", "med", "median", "avg"] {
+                for n in [2usize, 3, 4] {
+                    if f == "avg" && n != 2 {
+                        continue; // a*3 may need more than 96 bits
+                    }
+                    let list: Vec<&str> = (0..n).map(|_| a).collect();
+                    let mut c = Case::new(Ev::Dec, format!("{}({})", f, list.join(",")), Val::D(dec(a)));
+                    c.aux = vec![f.to_string(), String::new(), "placeholder".into()];
+                    out.push(c);
                 }
             }
         }
